@@ -231,7 +231,16 @@ class Gen:
             op = self.rng.choice(['and', 'or'])
             sc.no_calls = True
             try:
-                return ['bin', op, self.cond_cmp(sc), self.cond_cmp(sc)]
+                # (an operand of and/or may be a plain number: zero is false,
+                # anything else true)
+                def operand():
+                    if self.rng.random() < 0.3:
+                        self.tag('number-as-logical-operand')
+                        return self.rng.choice([
+                            ['num', self.rng.choice([0, 1, 2, 4, 6, 2.5, 0.5])],
+                            self.int_leaf(sc)])
+                    return self.cond_cmp(sc)
+                return ['bin', op, operand(), operand()]
             finally:
                 sc.no_calls = False
         if r > 0.78:
